@@ -8,8 +8,8 @@ use crate::verdict::Violation;
 pub struct C08;
 
 pub const SINGLE_BASE: u64 = 4 << 20;
-pub const PEAK_BASE: u64 = 16 << 20;
-pub const CUM_BASE: u64 = 64 << 20;
+pub const PEAK_BASE: u64 = 8 << 20;
+pub const CUM_BASE: u64 = 16 << 20;
 
 impl Prop for C08 {
     type Case = CorruptCase;
@@ -57,9 +57,9 @@ impl Prop for C08 {
                     format!("{} requested {} bytes at once on an image of {} bytes (limit 4 MiB + 64n)", rec.api, rec.alloc.max_request, n),
                 ));
             } else if rec.alloc.peak_over_base as u64 > PEAK_BASE + 64 * n {
-                out.push(Violation::new("C08", "peak_live", format!("api={}", rec.api), format!("{} held {} bytes live on an image of {} bytes (limit 16 MiB + 64n)", rec.api, rec.alloc.peak_over_base, n)));
-            } else if rec.alloc.cumulative as u64 > CUM_BASE + 512 * n {
-                out.push(Violation::new("C08", "cumulative", format!("api={}", rec.api), format!("{} allocated {} bytes in total on an image of {} bytes (limit 64 MiB + 512n)", rec.api, rec.alloc.cumulative, n)));
+                out.push(Violation::new("C08", "peak_live", format!("api={}", rec.api), format!("{} held {} bytes live on an image of {} bytes (limit 8 MiB + 64n)", rec.api, rec.alloc.peak_over_base, n)));
+            } else if rec.alloc.cumulative as u64 > CUM_BASE + 128 * n {
+                out.push(Violation::new("C08", "cumulative", format!("api={}", rec.api), format!("{} allocated {} bytes in total on an image of {} bytes (limit 16 MiB + 128n)", rec.api, rec.alloc.cumulative, n)));
             }
         }
         out.dedup_by(|a, b| a.signature() == b.signature());
@@ -69,7 +69,7 @@ impl Prop for C08 {
         shrink_case(case)
     }
     fn rule() -> String {
-        "(systematic part) every located field of a fixed list of 17 seed images x 13 boundary values, one substitution per run (thorough: all 130 364 (image, field, value) triples; quick: the first 50 000); (seeded part) same storage-fault campaign as C06 (own case stream) with the counting allocator armed around every API call: largest single request <= 4 MiB + 64n, peak live bytes <= 16 MiB + 64n, cumulative <= 64 MiB + 512n (n = image length); requests up to 6 GiB are served (untouched pages) so the run continues and the site is recorded, larger ones abort the worker, which the supervisor reports; distinct_nontrivial = distinct (fault kind, box path:field, outcome class) triples".into()
+        "(systematic part) every located field of a fixed list of 17 seed images x 13 boundary values, one substitution per run (thorough: all 130 364 (image, field, value) triples; quick: the first 50 000); (seeded part) same storage-fault campaign as C06 (own case stream) with the counting allocator armed around every API call: largest single request <= 4 MiB + 64n, peak live bytes <= 8 MiB + 64n, cumulative <= 16 MiB + 128n (n = image length; the unchanged tree peaks at 2.1 MiB on small images and at 12 bytes per input byte on images with hundreds of tracks and thousands of fragments); requests up to 6 GiB are served (untouched pages) so the run continues and the site is recorded, larger ones abort the worker, which the supervisor reports; distinct_nontrivial = distinct (fault kind, box path:field, outcome class) triples".into()
     }
     fn assumptions() -> Vec<String> {
         vec![
